@@ -33,8 +33,9 @@ CLAIMED = {
          "(Gaussian elimination on the conditions) for all 25 end pairs, Periodic, per-lane assignments.", "§5 C03",
          "single-lane theorems, carried to lanes by C08_spline_build_lanes / C08_individual", "Lean 4 proof (system <-> conditions equivalence, uniqueness, periodic condensation) + exact oracles + formula tie (kernels re-translated from the source each run, FT_* theorems)"),
  "C04": ("Theorems C04_struct, C04_blend, C04_node, C04_gridline, C04_transpose for all grids, axes, lanes and in-grid queries; "
-         "exact correspondence and blend oracle at Q, f64 runs within the composed rounding bound, transposition metamorphic test.",
-         "§5 C04", "rounding as C01 (three nested calc_frac)", "Lean 4 proof (field identities, bracket uniqueness) + exact-rational correspondence + formula tie (kernels re-translated from the source each run, FT_* theorems) + control-flow tie (Bilinear::interp_into and the Interp2D accessors re-translated each run; FT_ctl_bilinear)"),
+         "C04_rounding ((2B+B^2)*max|z| with B = 13u+12u^2 under the standard model of fp arithmetic: three nested calc_frac, in-range calc_frac is 1-Lipschitz in its values); "
+         "exact correspondence and blend oracle at Q, f64 / f32 runs held to the proved bound, transposition metamorphic test.",
+         "§5 C04", "rounding only under the standard model (no overflow/underflow)", "Lean 4 proof (field identities, bracket uniqueness) + exact-rational correspondence + formula tie (kernels re-translated from the source each run, FT_* theorems) + control-flow tie (Bilinear::interp_into and the Interp2D accessors re-translated each run; FT_ctl_bilinear)"),
  "C05": ("Theorems C05_linear, C05_bilinear (answered iff in the closed range, otherwise exactly OutOfBounds, never a panic), "
          "C05_gate_nan(_hi) with no assumption on the comparison operators (NaN), C05_batch_ok_iff / C05_batch_first_error for every "
          "strategy and entry point; spline variant in Props/C02. Outcome correspondence at Q and f64 over all strategies, entry points, "
